@@ -364,3 +364,24 @@ package generator
 //@ func (*Generator).beginOutput
 //@   props C12 C20
 //@   maprange 0: argued at most one existing output can match (FileName, package) and a (FileName, other package) match is an error whichever is met first only when both exist, which the same invariant excludes
+
+// ---- declaration reuse by structural equality (getDeclByEqualSchema) ----------
+// cmp.Equal is external: cmp_equal(a, b) is its (deterministic) verdict.
+//@ func (*output).getDeclByEqualSchema
+//@   props C02 C10 C20 C08
+//@   option inline Opts
+//@   shape o = decls(T) | decls(T,T_1) | decls(T,T_1,T_2) | decls(X)
+//@   shape name = "T"
+//@   shape t = new
+//@   option shape-zero t.
+//@   assigns nothing
+//@   ensures [C02,C10,C20,C08] returns-an-equal-declaration: result != nil ==> cmp_equal(result.SchemaType, t)
+//@   ensures [C02,C10,C20] returns-a-candidate: result != nil ==> result == o.declsByName["T"] || result == o.declsByName["T_1"] || result == o.declsByName["T_2"]
+
+// ---- order of the validators of one field (generateDeclaredType) --------------
+// A field's default must be assigned before the same field's constraints are
+// checked (C09: absent properties take their default; C05/C06: absent optional
+// values are never checked against bounds).
+//@ func (*schemaGenerator).generateDeclaredType
+//@   props C09 C05 C06 C17
+//@   calls-ordered defaultValidator before structFieldValidators
